@@ -191,14 +191,14 @@ def _check_main(ctx, res) -> None:
         raise AnalysisError("anchor=ChangeToData.__call__ not found")
     # writer's aliasing: `if change_type in (A, B): change_type = C`
     alias: Dict[str, str] = {}
-    for n in walk_local(wcall.node):
-        if isinstance(n, ast.If) and isinstance(n.test, ast.Compare) and isinstance(n.test.ops[0], ast.In) \
-                and isinstance(n.test.comparators[0], (ast.Tuple, ast.List, ast.Set)):
-            for st in n.body:
-                if isinstance(st, ast.Assign) and isinstance(st.value, ast.Name):
-                    for e in n.test.comparators[0].elts:
+    wcfg0 = CFG(wcall.node)
+    for nd in wcfg0.nodes:  # read off the guards, however the test is written
+        if nd.kind == "stmt" and isinstance(nd.ast, ast.Assign) and isinstance(nd.ast.value, ast.Name):
+            for t, pol in wcfg0.guards(nd.id):
+                if pol and isinstance(t, ast.Compare) and isinstance(t.ops[0], ast.In) and isinstance(t.comparators[0], (ast.Tuple, ast.List, ast.Set)):
+                    for e in t.comparators[0].elts:
                         if isinstance(e, ast.Name):
-                            alias[e.id] = st.value.id
+                            alias[e.id] = nd.ast.value.id
     # prefixes used by the dynamic dispatch
     def prefix(fn, cls) -> Optional[str]:
         for c in calls_in(fn):
@@ -706,3 +706,23 @@ def _save_is_unconditional(ctx, res) -> None:
                     "information is empty at close, the file written by an earlier session stays on disk and its contents reappear when the project is reopened",
                     function=f.qualname)
     res.floor("R12.10", "write_data call sites in rope/base", n, 2)
+    # ... and inside the writer itself: with a rope folder, every normal path dumps.  "Equal to what was last read or
+    # written" is no reason to skip: the consumer mutates the very object it was handed (MemoryDB keeps the dict that
+    # read_data returned), so such a comparison compares the data with itself.
+    wd = idx.need_func("rope.base.project._DataFiles.write_data")
+    wcfg = CFG(common.inlined(idx, wd))
+    dumps = [nd.id for nd in wcfg.nodes if nd.ast is not None and nd.kind == "stmt" and any(
+        isinstance(c.func, ast.Attribute) and c.func.attr == "dump" for c in calls_in(nd.ast))]
+    if not dumps:
+        raise AnalysisError("anchor=_DataFiles.write_data: dump not found")
+    folder_off = [(nd.id, d, l) for nd in wcfg.nodes if nd.kind == "test" and nd.ast is not None and "ropefolder" in ast.unparse(nd.ast)
+                  for d, l in wcfg.succ[nd.id]
+                  if l == ("false" if isinstance(nd.ast, ast.Compare) and isinstance(nd.ast.ops[0], ast.IsNot) else "true" if isinstance(nd.ast, ast.Compare) else "false")]
+    free = wcfg.reachable(wcfg.entry.id, avoid_nodes=dumps, avoid_edges=folder_off,
+                          labels={"", "true", "false", "return", "case", "nomatch", "break", "continue"})
+    skipping = wcfg.exit.id in free
+    tests = [ast.unparse(nd.ast) for nd in wcfg.nodes if nd.kind == "test" and nd.ast is not None and nd.id in free and "ropefolder" not in ast.unparse(nd.ast)]
+    res.add("R12.10", "_DataFiles.write_data|always-dumps", not skipping, wd.where,
+            "with a rope folder every normal path of write_data dumps the data" if not skipping else
+            f"write_data can return without dumping although the project has a rope folder (tests on the way: {tests[:2]}): data that changed in place since it was "
+            "read -- the object database is the very dict read_data returned -- compares equal to the remembered object and is never saved", function=wd.qualname)
